@@ -5,7 +5,7 @@ definition unit(p)=10^-p, grid(x,p) <=> x*10^p in Z, q_* = floor/ceil/round-half
 and for symbolic scale by Lean (lemmas/Axioms.lean).
 """
 import z3
-from .vtypes import StrS, RefS
+from .vtypes import StrS, RefS, IdS
 
 PY_BUILTINS = {
     "abs", "max", "min", "len", "set", "dict", "list", "tuple", "isinstance", "int", "str", "float", "bool", "sum",
@@ -19,7 +19,7 @@ SPEC_BUILTINS = {
     "allocated", "content_unchanged", "field_unchanged", "is_none", "not_none", "seq_len", "seq_at", "disjoint",
     "mmap_of", "mset_of", "let", "Real", "Int", "TRUE", "FALSE", "INF", "null", "mset_remove", "same_object",
     "is_open_state", "lemma", "select", "store", "trunc0", "cls_of", "idiv", "imod", "to_real", "to_int", "floor",
-    "inflt", "clock", "at_suspend", "ENTRY", "mkval", "val_at", "mmap_add", "mmap_sub", "mset_single", "mmap_empty", "mmap_put", "pure_call", "unchanged_except", "xor", "distinct",
+    "inflt", "clock", "at_suspend", "ENTRY", "mkval", "val_at", "mmap_add", "mmap_sub", "nonempty", "mset_single", "mmap_empty", "mmap_put", "pure_call", "unchanged_except", "xor", "distinct",
 }
 
 unit = z3.Function("unit", z3.IntSort(), z3.RealSort())
@@ -29,13 +29,14 @@ q_up = z3.Function("q_up", z3.RealSort(), z3.IntSort(), z3.RealSort())
 q_he = z3.Function("q_he", z3.RealSort(), z3.IntSort(), z3.RealSort())
 card_str = z3.Function("card_str", z3.ArraySort(StrS, z3.BoolSort()), z3.IntSort())
 card_ref = z3.Function("card_ref", z3.ArraySort(RefS, z3.BoolSort()), z3.IntSort())
+card_id = z3.Function("card_id", z3.ArraySort(IdS, z3.BoolSort()), z3.IntSort())
 str_concat = z3.Function("str_concat", StrS, StrS, StrS)
 str_of_real = z3.Function("str_of_real", z3.RealSort(), StrS)
 str_of_int = z3.Function("str_of_int", z3.IntSort(), StrS)
 
 owner_obj = z3.Function("owner_obj", RefS, RefS)
 owner_fld = z3.Function("owner_fld", RefS, z3.IntSort())
-owner_key = z3.Function("owner_key", RefS, StrS)
+owner_key = z3.Function("owner_key", RefS, IdS)
 _FIELD_IDS = {}
 
 
@@ -82,6 +83,8 @@ def card(dom):
         return card_str(dom)
     if s == RefS:
         return card_ref(dom)
+    if s == IdS:
+        return card_id(dom)
     raise TypeError("card on %s" % s)
 
 
@@ -102,7 +105,7 @@ def _collect(e, seen, apps):
         if z3.is_app(t):
             d = t.decl()
             nm = d.name()
-            if nm in ("q_down", "q_up", "q_he", "grid", "unit", "card_str", "card_ref") and d.arity() > 0:
+            if nm in ("q_down", "q_up", "q_he", "grid", "unit", "card_str", "card_ref", "card_id") and d.arity() > 0:
                 # skip applications that mention bound variables
                 if not _has_var(t):
                     apps.setdefault(nm, {})[tid] = t
@@ -184,6 +187,7 @@ def grid_axioms(atoms, depth_terms):
                     out.append(grid(ch[0], p) == grid(x, p))
                 elif k == z3.Z3_OP_ITE:
                     out.append(z3.Implies(z3.And(grid(ch[1], p), grid(ch[2], p)), grid(x, p)))
+                    out.append(z3.Implies(grid(x, p), z3.And(z3.Implies(ch[0], grid(ch[1], p)), z3.Implies(z3.Not(ch[0]), grid(ch[2], p)))))
                 elif k == z3.Z3_OP_MUL and len(ch) == 2:
                     for a, b in ((ch[0], ch[1]), (ch[1], ch[0])):
                         if z3.is_rational_value(a) and a.denominator_as_long() == 1:
@@ -194,9 +198,99 @@ def grid_axioms(atoms, depth_terms):
         for i in range(len(xs)):
             out.append(z3.Implies(z3.And(grid(xs[i], p), xs[i] > 0), xs[i] >= u))
             out.append(z3.Implies(z3.And(grid(xs[i], p), xs[i] < 0), xs[i] <= -u))
-            for j in range(i + 1, len(xs)):
-                a, b = xs[i], xs[j]
-                out.append(z3.Implies(z3.And(grid(a, p), grid(b, p), a - b < u, b - a < u), a == b))
+        # uniqueness is quadratic: with many atoms only pair the rounded terms themselves with every atom
+        if len(xs) <= 14:
+            pairs = [(xs[i], xs[j]) for i in range(len(xs)) for j in range(i + 1, len(xs))]
+        else:
+            qs = [x for x in xs if z3.is_app(x) and x.decl().name() in ("q_down", "q_up", "q_he")][:10]
+            pairs = [(a, b) for a in qs for b in xs if not a.eq(b)][:400]
+        for a, b in pairs:
+            out.append(z3.Implies(z3.And(grid(a, p), grid(b, p), a - b < u, b - a < u), a == b))
+    return out
+
+
+def _addends(t, sign, out):
+    """flatten a real term into +-1 * atom addends; returns False if it is not such a unit-coefficient combination"""
+    if z3.is_rational_value(t):
+        return t.numerator_as_long() == 0
+    if z3.is_app(t):
+        k = t.decl().kind()
+        if k == z3.Z3_OP_ADD:
+            return all(_addends(c, sign, out) for c in t.children())
+        if k == z3.Z3_OP_SUB:
+            ch = t.children()
+            return _addends(ch[0], sign, out) and all(_addends(c, -sign, out) for c in ch[1:])
+        if k == z3.Z3_OP_UMINUS:
+            return _addends(t.arg(0), -sign, out)
+        if k == z3.Z3_OP_MUL and t.num_args() == 2:
+            for a, b in ((t.arg(0), t.arg(1)), (t.arg(1), t.arg(0))):
+                if z3.is_rational_value(a) and a.denominator_as_long() == 1 and a.numerator_as_long() in (1, -1):
+                    return _addends(b, sign * a.numerator_as_long(), out)
+    out.append(t)
+    return True
+
+
+def linear_grid_axioms(eqs, atoms):
+    """AX-GRID-LIN: in an equation  +-t1 +- t2 +- ... = 0  (unit coefficients), if all addends but one are on the grid, so
+    is the remaining one (the grid is a group under +).  Forward chaining: an instance is generated only when all but at
+    most one addend already occur in a grid atom for that precision; the new atom can enable further equations."""
+    lin = []
+    for lhs, rhs in eqs:
+        ts = []
+        if not (_addends(lhs, 1, ts) and _addends(rhs, -1, ts)):
+            continue
+        uniq = {}
+        for t in ts:
+            uniq[t.get_id()] = t
+        ts = list(uniq.values())
+        if 2 <= len(ts) <= 4:
+            lin.append(ts)
+    byp = {}
+    for a in atoms.values():
+        e = byp.setdefault(a.arg(1).get_id(), (a.arg(1), set()))
+        e[1].add(a.arg(0).get_id())
+    out = []
+    done = set()
+    for _round in range(4):
+        grew = False
+        for pid, (p, have) in list(byp.items()):
+            for k, ts in enumerate(lin):
+                if (pid, k) in done:
+                    continue
+                missing = [t for t in ts if t.get_id() not in have]
+                if len(missing) <= 1 and len(missing) < len(ts):
+                    done.add((pid, k))
+                    for i in range(len(ts)):
+                        others = [grid(ts[j], p) for j in range(len(ts)) if j != i]
+                        out.append(z3.Implies(z3.And(*others), grid(ts[i], p)))
+                    for t in missing:
+                        have.add(t.get_id())
+                        na = grid(t, p)
+                        atoms[na.get_id()] = na
+                        grew = True
+        if not grew:
+            break
+    return out
+
+
+def _real_equalities(fs):
+    out = []
+    seen = set()
+    stack = list(fs)
+    while stack:
+        t = stack.pop()
+        i = t.get_id()
+        if i in seen:
+            continue
+        seen.add(i)
+        if z3.is_quantifier(t):
+            continue
+        if z3.is_app(t):
+            if t.decl().kind() == z3.Z3_OP_EQ and t.arg(0).sort() == z3.RealSort() and not _has_var(t):
+                out.append((t.arg(0), t.arg(1)))
+            else:
+                if t.sort() == z3.BoolSort():
+                    stack.extend(t.children())
     return out
 
 
@@ -262,7 +356,7 @@ def instantiate(formulas, rounds=2):
             if ("u", tid) not in done:
                 done.add(("u", tid))
                 new += unit_axioms(t)
-        for nm in ("card_str", "card_ref"):
+        for nm in ("card_str", "card_ref", "card_id"):
             for tid, t in apps.get(nm, {}).items():
                 if ("c", tid) not in done:
                     done.add(("c", tid))
@@ -273,21 +367,38 @@ def instantiate(formulas, rounds=2):
         todo = new
         if not new:
             break
-    # grid closure over all grid atoms seen in formulas + extra
+    # grid closure over all grid atoms seen in formulas + extra: a small fixpoint of
+    #   (a) congruence helper: for an equation  t == e  between reals where grid(t, p) is an atom, e becomes an atom too
+    #   (b) structural closure (sum / difference / negation / ite / integer multiple) which introduces atoms for sub-terms
     apps = {}
     seen2 = set()
     for f in list(formulas) + extra:
         _collect(f, seen2, apps)
-    atoms = list(apps.get("grid", {}).values())
-    g = grid_axioms(atoms, None)
-    # second round: closure axioms introduce new atoms for sub-terms
-    apps2 = {}
-    seen3 = set()
-    for f in g:
-        _collect(f, seen3, apps2)
-    atoms2 = {a.get_id(): a for a in atoms}
-    for a in apps2.get("grid", {}).values():
-        atoms2[a.get_id()] = a
-    if len(atoms2) > len(atoms):
-        g = grid_axioms(list(atoms2.values()), None)
-    return extra + g
+    atoms = {a.get_id(): a for a in apps.get("grid", {}).values()}
+    eqs = _real_equalities(list(formulas) + extra)
+    g = []
+    for _round in range(4):
+        n0 = len(atoms)
+        byterm = {}
+        for a in atoms.values():
+            byterm.setdefault(a.arg(0).get_id(), []).append(a.arg(1))
+        for lhs, rhs in eqs:
+            for x, y in ((lhs, rhs), (rhs, lhs)):
+                for p in byterm.get(x.get_id(), []):
+                    na = grid(y, p)
+                    if na.get_id() not in atoms and len(atoms) < 300:
+                        atoms[na.get_id()] = na
+        g = grid_axioms(list(atoms.values()), None)
+        apps2 = {}
+        seen3 = set()
+        for f in g:
+            _collect(f, seen3, apps2)
+        for a in apps2.get("grid", {}).values():
+            if a.get_id() not in atoms and len(atoms) < 300:
+                atoms[a.get_id()] = a
+        if len(atoms) == n0:
+            break
+    # linear-combination closure over the ground equations (may add atoms), then the structural closure once more
+    lin = linear_grid_axioms(eqs, atoms)
+    g = grid_axioms(list(atoms.values()), None)
+    return extra + g + lin
